@@ -17,10 +17,10 @@ import (
 )
 
 // VerifPeerFill exports clientAddr.fill.
-func VerifPeerFill(ip net.IP, port int) ([net.IPv6len]byte, int) {
+func VerifPeerFill(ip net.IP, zone string, port int) ([net.IPv6len]byte, string, int) {
 	var ca clientAddr
-	ca.fill(ip, port)
-	return ca.ip, ca.port
+	ca.fill(ip, zone, port)
+	return ca.ip, ca.zone, ca.port
 }
 
 // VerifPeerServerListener is a serverUDPListener created through initialize().
@@ -43,13 +43,13 @@ func VerifPeerNewServerListener(pc net.PacketConn, address string) (*VerifPeerSe
 }
 
 // AddClient exports addClient.
-func (l *VerifPeerServerListener) AddClient(ip net.IP, port int, cb func([]byte) bool) {
-	l.u.addClient(ip, port, cb)
+func (l *VerifPeerServerListener) AddClient(ip net.IP, zone string, port int, cb func([]byte) bool) {
+	l.u.addClient(ip, zone, port, cb)
 }
 
 // RemoveClient exports removeClient.
-func (l *VerifPeerServerListener) RemoveClient(ip net.IP, port int) {
-	l.u.removeClient(ip, port)
+func (l *VerifPeerServerListener) RemoveClient(ip net.IP, zone string, port int) {
+	l.u.removeClient(ip, zone, port)
 }
 
 // NumClients returns the size of the clients map.
@@ -74,7 +74,9 @@ type VerifPeerClientListener struct {
 func VerifPeerNewClientListener(
 	pc net.PacketConn,
 	anyPortEnable bool,
+	multicast bool,
 	readIP net.IP,
+	readZone string,
 	readPort int,
 	timeNow func() time.Time,
 	cb func([]byte) bool,
@@ -93,8 +95,10 @@ func VerifPeerNewClientListener(
 	if err != nil {
 		return nil, err
 	}
+	u.multicast = multicast // after initialize(): only the source filter looks at it from here on
 	u.readFunc = cb
 	u.readIP = readIP
+	u.readZone = readZone
 	u.readPort = readPort
 	return &VerifPeerClientListener{u: u}, nil
 }
@@ -131,6 +135,7 @@ func VerifPeerClientSetClock(c *Client, timeNow func() time.Time, checkTimeoutPe
 // VerifPeerListenerInfo describes one UDP listener of a client media.
 type VerifPeerListenerInfo struct {
 	ReadIP         net.IP
+	ReadZone       string
 	ReadPort       int
 	LocalPort      int
 	LastPacketTime int64
@@ -148,6 +153,7 @@ func VerifPeerClientListeners(c *Client) [][2]VerifPeerListenerInfo {
 		for i, l := range []*clientUDPListener{cm.udpRTPListener, cm.udpRTCPListener} {
 			e[i] = VerifPeerListenerInfo{
 				ReadIP:         l.readIP,
+				ReadZone:       l.readZone,
 				ReadPort:       l.readPort,
 				LocalPort:      l.port(),
 				LastPacketTime: l.lastPacketTime.Load(),
